@@ -95,6 +95,22 @@ Theorem c05_shift_certificate_optimal : forall d xm sel pi f x',
   xvalue xm (positions_of sel pi) <= xvalue xm (assign sel x').
 Proof. exact shift_cert_optimal. Qed.
 
+(* [F] the x wirelength is the sum over the nets touching a selected cell (the objective of the linear
+   programme: pin positions of selected cells from the new positions, of the other cells from the model) plus
+   the sum over the other nets, which does not depend on the positions given to the selected cells: untouched
+   nets do not change; and the certified positions minimise the touched part *)
+Theorem c05_shift_untouched_nets_unchanged : forall xm sel x,
+  Forall (fun c => (c < length (ipos xm))%nat) sel ->
+  xvalue xm (assign sel x) = touched_value xm sel x + untouched_value xm sel.
+Proof. exact xvalue_touched_untouched. Qed.
+
+Theorem c05_shift_certificate_optimal_touched : forall d xm sel pi f x',
+  Forall (fun c => (c < length (ipos xm))%nat) sel ->
+  shift_cert_ok (shift_net d xm sel) pi f = true ->
+  shift_ok d (assign sel x') = true ->
+  touched_value xm sel (x_of pi) <= touched_value xm sel x'.
+Proof. exact shift_cert_optimal_touched. Qed.
+
 (* [F] the write-back loop (xtopo_.updateCellPos for every selected cell) leaves the incremental model in a
    state satisfying its invariant whose value IS that from-scratch x wirelength *)
 Theorem c05_shift_writeback_value : forall ups xm, IInv xm ->
@@ -191,6 +207,8 @@ Print Assumptions c05_frozen_offsets_refuted.
 Print Assumptions c05_initial_value_is_hpwl.
 Print Assumptions c05_shift_lp_weak_duality.
 Print Assumptions c05_shift_certificate_optimal.
+Print Assumptions c05_shift_untouched_nets_unchanged.
+Print Assumptions c05_shift_certificate_optimal_touched.
 Print Assumptions c05_shift_writeback_value.
 Print Assumptions c05_certified_shift_never_worsens.
 Print Assumptions c05_history_with_certified_shifts_monotone.
